@@ -20,7 +20,7 @@ def _setup(cls):
     return setup
 
 
-def check(rep, ex: Explorer, cls: str, strict=True, extended=True, keys=False):
+def check(rep, ex: Explorer, cls: str, strict=True, extended=True, keys=False, floors=True):
     qual = f"{cls}._inference"
     site = fn_label(ex.prog, qual)
     paths = ex.run(qual, _setup(cls), summaries=wrappers.SUMMARIES, key="pent")
@@ -60,7 +60,8 @@ def check(rep, ex: Explorer, cls: str, strict=True, extended=True, keys=False):
                 rep.check(not lit, "KEY.no-reserved", site, "negated-query key", "the negated query is stored under a key that cannot collide with a key of the base",
                           extracted=f"literal key {k}" if lit else "below the minimum / above the maximum of the base's keys", required="a key provably outside the base's keys", function=site)
         # ---- C01.mode-arg
-        ok = isinstance(c.weakly, Const) and c.weakly.value is W
+        # the mode flag itself is as good as the constant: on this path its truth value is W
+        ok = (isinstance(c.weakly, Const) and c.weakly.value is W) or (isinstance(c.weakly, Sym) and c.weakly.label == "weakly")
         rep.check(ok, "C01.mode-arg", site, f"{mode}: partition mode", f"the partition of the extended base is computed in {mode} mode",
                   extracted=repr(c.weakly), required=str(W), function=site)
         pf = ("partfalse", ("part", c.pid))
@@ -81,6 +82,11 @@ def check(rep, ex: Explorer, cls: str, strict=True, extended=True, keys=False):
         else:
             n_ext += 1
             qevs = [ev for ev, Q in iter_events(p.events) if ev.kind == "query"]
+            used = [ev for ev, Q in iter_events(p.events) if ev.kind == "use.as-list" and isinstance(ev.value, ElemV) and ev.value.var == ("part", c.pid)]
+            if decided(p, pf) is None and used:
+                rep.violation("EXT.pinf", f"{site}:{used[0].node.lineno}", "extended: no partition", "no extended partition of base ∪ {(¬B|A)} ⇒ True; the verdict False of the partition test is indexed like a list (TypeError) instead",
+                              extracted="partition[...] without testing for False", required="True when the test yields no partition", function=site)
+                continue
             for env, val in rows:
                 if pf not in env:
                     raise AnalysisError(f"{site}: extended answer does not depend on the partition verdict")
@@ -103,7 +109,7 @@ def check(rep, ex: Explorer, cls: str, strict=True, extended=True, keys=False):
     if strict:
         rep.floor("strict p-entailment paths", n_strict, 1)
     if extended:
-        rep.floor("extended p-entailment paths", n_ext, 2)
+        rep.floor("extended p-entailment paths", n_ext, 2 if floors else 1)
 
 
 def _show_cond(d):
